@@ -89,7 +89,15 @@ def call(contract, cfgname, arrs, scal):
     sig = [p for p in inspect.signature(f).parameters]
     kwargs = {}
     cfg = contract.cfgs[cfgname]
+    U = algopy().UTPM
+    objs = set(getattr(contract, 'objs', ())); objtuples = getattr(contract, 'objtuples', {})
     for p in sig:
+        if p in objs and (p + '.data') in arrs:                     # object parameters: UTPM instances wrapping the generated arrays (no copy)
+            kwargs[p] = U(arrs[p + '.data']); continue
+        if p in objtuples:
+            if p in cfg and cfg[p] is None: kwargs[p] = None
+            else: kwargs[p] = tuple(U(arrs['%s.%d.data' % (p, i)]) for i in range(objtuples[p]))
+            continue
         if p in contract.tuples:
             if p in cfg and cfg[p] is None: kwargs[p] = None
             else: kwargs[p] = tuple(arrs['%s.%d' % (p, i)] for i in range(contract.tuples[p]))
